@@ -10,7 +10,7 @@
   tensor-lifting fact of DESIGN §7; the correspondence run additionally checks it against a dense simulator, n ≤ 5.)
 -/
 import GraphiqModel.Proofs.Tableau
-import GraphiqModel.Proofs.TabSpecHistory
+import GraphiqModel.Proofs.TabSpecFactor
 namespace Graphiq.C07
 open Graphiq Graphiq.PRow Graphiq.Tab
 
@@ -406,6 +406,22 @@ example (o : Bool) : Grp (bell.resetZ 1 true o) (Zq 0 true) := by
   refine h.mpr ⟨rfl, Or.inr ?_⟩
   exact InSpan.eqv _ _ (grp_gen bell 1 (by decide)) (eqOn_check 2 _ _ (by decide))
 
+/-- witness for (b): in the random branch `reset_z` is NOT "measure with the forced outcome, then flip".  Bell pair, qubit 1,
+    forced outcome 0, intended 1: `reset_z` keeps `+Z_0Z_1` (both qubits end in `|1⟩`), whereas the measurement with outcome 0
+    followed by `X_1` gives `-Z_0Z_1` (qubit 0 stays in `|0⟩`); the two groups differ.  Replayed on the Python API
+    (`handoff/c07.md`; accepted by the property as "a branch of the measurement", DESIGN §0.5). -/
+theorem reset_random_branch_witness :
+    Grp (bell.resetZ 1 true false) (bell.stab 1) ∧
+    Grp ((bell.zMeasure 1 false).1.xGate 1) (negate (bell.stab 1)) ∧
+    ¬ Grp (bell.resetZ 1 true false) (negate (bell.stab 1)) := by
+  have h1 : Grp (bell.resetZ 1 true false) (bell.stab 1) :=
+    InSpan.eqv _ _ (grp_gen (bell.resetZ 1 true false) 1 (by decide)) (eqOn_check 2 _ _ (by decide))
+  refine ⟨h1, ?_, ?_⟩
+  · exact InSpan.eqv _ _ (grp_gen ((bell.zMeasure 1 false).1.xGate 1) 1 (by decide)) (eqOn_check 2 _ _ (by decide))
+  · have hv := resetZ_valid bell 1 true false (by decide) bell_valid
+    have hr := (resetZ_tracks bell 1 true false (by decide) bell_valid bell_real).1
+    exact (stabilizer_group_consistent _ hv hr).cons _ h1
+
 /-! ### 4b.7 removing a qubit -/
 
 /-- **`remove_qubit` never hits its `assert len(non_zero) > 0`** on a valid tableau -/
@@ -499,6 +515,32 @@ example : (∀ q, q < (Tab.ket1 3).n → q ∉ [1] → Unentangled (Tab.ket1 3) 
   exact unentangled_of_Zq _ q true (by
     have : Zq q true = (Tab.ket1 3).stab q := by simp [Tab.ket1, Tab.stab]
     rw [this]; exact grp_gen _ q hq)
+
+/-- the same for a traced-out factor that may be entangled *internally*: if the group is a product across the cut
+    (`Factor`: every element restricted to the kept sites is in the group up to sign), the result is the reduced state of the
+    kept factor, whatever outcomes are drawn while the traced-out qubits are measured away -/
+theorem partial_trace_factor_spec (t t' : Tab) (keep : List Nat) (os : List Bool) (hv : t.Valid) (hr : t.StabReal)
+    (hf : Factor t (removalList t.n keep)) (h : t.partialTrace keep os = .ok t') :
+    t'.n + (removalList t.n keep).length = t.n ∧
+    ∀ P', Grp t' P' ↔ Grp t (embedCols (removalList t.n keep) P') :=
+  partialTrace_factor_grp t t' keep os hv hr hf h
+
+/-- **`partial_trace(tensor([a, b]), keep = the qubits of a)` is `a`**: same number of qubits and same stabilizer group,
+    for all valid `a`, `b` and all outcome scripts (`tensor_spec` and `partial_trace_factor_spec` combined) -/
+theorem partial_trace_of_tensor_spec (a b t' : Tab) (os : List Bool) (ha : a.Valid) (hb : b.Valid) (ra : a.StabReal)
+    (rb : b.StabReal) (h : (Tab.tensor2 a b).partialTrace (List.range a.n) os = .ok t') :
+    t'.n = a.n ∧ ∀ P', Grp t' P' ↔ Grp a P' :=
+  partialTrace_tensor_left a b t' os ha hb ra rb h
+
+/-- `|1⟩ ⊗ Bell`: the Bell pair (entangled internally, random outcomes) is traced out, `|1⟩` is left -/
+example : (match (Tab.tensor2 (Tab.ket1 1) bell).partialTrace (List.range 1) [true] with
+    | .ok t' => t'.n == 1 && t'.isSymplectic | .error _ => false) = true := by decide +kernel
+example : Factor (Tab.tensor2 (Tab.ket1 1) bell) (removalList 3 (List.range 1)) :=
+  tensor_factor (Tab.ket1 1) bell ((isSymplectic_iff_valid _).mp (by decide)) bell_valid
+    (stabRealB_spec _ (by decide)) bell_real _ (fun j hj => by
+      have := mem_removalList_range 1 2 j
+      simp only [Tab.ket1, show bell.n = 2 from rfl] at hj ⊢
+      rw [this]; omega)
 
 /-! ### 4b.9 every history tracks the state -/
 
